@@ -793,3 +793,116 @@ Qed.
 (** sbp accepts a block whose signature does not verify and whose key does not even parse *)
 Theorem sbp_all_clauses_refuted : checks_accept (sbp_checks false false) = true.
 Proof. reflexivity. Qed.
+
+(* ================================================================== *)
+(* ------------------------------------------------------------------ corollaries and model sanity *)
+Section Corollaries.
+  Variable iv : Z.
+  Variable cluster_of : Z -> list Z.
+  Variable cap : nat.
+  Variable genesis : block.
+  Variable f42 : bool.
+  Notation run := (run iv cluster_of cap genesis f42).
+  Notation arrive := (arrive iv cluster_of cap genesis f42).
+  Notation init := (init genesis).
+
+  (** A block whose signature does not verify is never connected, stored or even parked,
+      whatever arrives in whatever order. *)
+  Theorem forged_block_never_kept evs b :
+    b_sig b = false -> b <> genesis ->
+    let s := run evs init in ~ In b (n_main s) /\ ~ In b (n_store s) /\ ~ In b (n_orph s).
+  Proof.
+    intros Hs Hg. cbv zeta. repeat split; intros Hin.
+    - destruct (accepted_blocks_legitimate iv cluster_of cap genesis f42 evs b Hin Hg) as ((H & _) & _). congruence.
+    - destruct (stored_blocks_vetted iv cluster_of cap genesis f42 evs b Hin Hg) as (H & _). congruence.
+    - destruct (parked_blocks_vetted iv cluster_of cap genesis f42 evs b Hin) as (H & _). congruence.
+  Qed.
+
+  (** A block that has only ever arrived while two or more slots ahead of the clock is not kept. *)
+  Theorem always_future_block_never_kept evs b :
+    (forall now, In (Arrive b now) evs -> is_future (from_unix_ns iv (b_ts b)) (from_unix_ns iv now) = true) ->
+    b <> genesis ->
+    let s := run evs init in ~ In b (n_main s) /\ ~ In b (n_store s) /\ ~ In b (n_orph s).
+  Proof.
+    intros Hf Hg. cbv zeta.
+    assert (Hno : ~ vetted iv evs b).
+    { intros (_ & _ & now & Hin & Hnf). rewrite (Hf now Hin) in Hnf. discriminate. }
+    repeat split; intros Hin; apply Hno.
+    - apply (accepted_blocks_legitimate iv cluster_of cap genesis f42 evs b Hin Hg).
+    - apply (stored_blocks_vetted iv cluster_of cap genesis f42 evs b Hin Hg).
+    - apply (parked_blocks_vetted iv cluster_of cap genesis f42 evs b Hin).
+  Qed.
+
+  (** An arrival two or more slots ahead of the clock, or with a foreign chain id, leaves the
+      node untouched (in particular the block is not remembered as errored: it is accepted when
+      it comes again in time); a bad signature only adds the block to errBlocks. *)
+  Theorem future_arrival_leaves_node_unchanged s b now :
+    is_future (from_unix_ns iv (b_ts b)) (from_unix_ns iv now) = true \/ b_cid b = false ->
+    fst (fst (arrive s b now)) = s.
+  Proof.
+    intros H. unfold Accept.arrive, Accept.add_internal.
+    destruct (mem_z (b_id b) (n_errs s)); [reflexivity|].
+    destruct (has_id (n_store s) (b_id b)); [reflexivity|].
+    destruct (is_future (from_unix_ns iv (b_ts b)) (from_unix_ns iv now)); [reflexivity|].
+    destruct H as [H|H]; [discriminate|]. rewrite H. reflexivity.
+  Qed.
+
+  Theorem bad_signature_arrival_only_cached s b now :
+    b_sig b = false ->
+    let s' := fst (fst (arrive s b now)) in
+    n_main s' = n_main s /\ n_store s' = n_store s /\ n_orph s' = n_orph s /\ n_upd s' = n_upd s.
+  Proof.
+    intros H. cbv zeta. unfold Accept.arrive, Accept.add_internal.
+    destruct (mem_z (b_id b) (n_errs s)); [repeat split|].
+    destruct (has_id (n_store s) (b_id b)); [repeat split|].
+    destruct (is_future (from_unix_ns iv (b_ts b)) (from_unix_ns iv now)); [repeat split|].
+    destruct (negb (b_cid b)); [repeat split|]. rewrite H. cbn. repeat split.
+  Qed.
+End Corollaries.
+
+(* ================================================================== *)
+(* ------------------------------------------------------------------ the fuel of the run loops suffices *)
+Lemma filter_length_le' {A} (f : A -> bool) l : (length (filter f l) <= length l)%nat.
+Proof. induction l as [|x l IH]; cbn; [lia|]. destruct (f x); cbn; lia. Qed.
+
+Lemma remove_child_shorter l p o : find_child l p = Some o -> (length (remove_child l p) < length l)%nat.
+Proof.
+  unfold find_child, remove_child. induction l as [|x l IH]; cbn; [discriminate|].
+  destruct (b_parent x =? p) eqn:E; cbn.
+  - intros _. pose proof (filter_length_le' (fun b => negb (b_parent b =? p)) l). lia.
+  - intros H. specialize (IH H). lia.
+Qed.
+
+Section Fuel.
+  Variable iv : Z.
+  Variable cluster_of : Z -> list Z.
+  Variable genesis : block.
+
+  (** R_fuel is unreachable: the orphan pool shrinks by one entry per resolved orphan. *)
+  Theorem run_main_fuel_suffices fuel : forall s b,
+    (length (n_orph s) <= fuel)%nat -> snd (fst (run_main iv cluster_of genesis fuel s b)) <> R_fuel.
+  Proof.
+    induction fuel as [|f IH]; intros s b Hlen; cbn [Accept.run_main]; unfold Accept.exec_block;
+      destruct (valid_now iv cluster_of s b); [destruct (b_exec b)| |destruct (b_exec b)|];
+      cbn [is_err R_ok R_exec R_invalid Z.leb Z.compare]; try (cbn; discriminate).
+    - cbn [n_orph with_main store_block with_upd].
+      destruct (n_orph s); [cbn; discriminate|cbn in Hlen; lia].
+    - cbn [n_orph with_main store_block with_upd].
+      destruct (find_child (n_orph s) (b_id b)) as [o|] eqn:FC; [|cbn; discriminate].
+      destruct (b_no b + 1 =? b_no o); [|cbn; discriminate].
+      set (s3 := with_orph _ _). specialize (IH s3 o).
+      destruct (Accept.run_main iv cluster_of genesis f s3 o) as [[s4 r4] c4].
+      cbn [fst snd] in *. apply IH. subst s3. cbn [n_orph with_orph with_main store_block with_upd].
+      pose proof (remove_child_shorter _ _ _ FC). lia.
+  Qed.
+
+  Theorem run_side_fuel_suffices fuel : forall s b,
+    (length (n_orph s) <= fuel)%nat -> snd (fst (run_side fuel s b)) <> R_fuel.
+  Proof.
+    induction fuel as [|f IH]; intros s b Hlen; cbn [Accept.run_side]; cbn [n_orph store_block].
+    - destruct (n_orph s); [cbn; discriminate|cbn in Hlen; lia].
+    - destruct (find_child (n_orph s) (b_id b)) as [o|] eqn:FC; [|cbn; discriminate].
+      destruct (b_no b + 1 =? b_no o); [|cbn; discriminate].
+      apply IH. cbn [n_orph with_orph]. pose proof (remove_child_shorter _ _ _ FC). lia.
+  Qed.
+End Fuel.
